@@ -84,3 +84,33 @@ impl AnnotationStore {
         }
     }
 }
+
+// ------------------------------------------------------------------------------------------------
+// H2: yield points. A test scheduler can register a callback that is invoked right before the
+// shared interior-mutable cells of the library (the serialisation mode of `Config`, the `changed`
+// flags of `ChangeMarker`) are read or written, always before the lock is taken and never while
+// it is held. Without a registered callback a yield point does nothing.
+
+static YIELD_CALLBACK: std::sync::RwLock<Option<fn(&'static str)>> = std::sync::RwLock::new(None);
+
+/// Verification hook: register (or clear) the callback invoked at every yield point.
+pub fn set_yield_callback(callback: Option<fn(&'static str)>) {
+    match YIELD_CALLBACK.write() {
+        Ok(mut guard) => *guard = callback,
+        Err(poisoned) => *poisoned.into_inner() = callback,
+    }
+}
+
+/// Verification hook: called where shared interior-mutable state is about to be read or written.
+/// `label` names the access (e.g. `"config.set_serialize_mode"`).
+#[inline]
+pub fn yield_point(label: &'static str) {
+    // copy the function pointer out so that the lock is released before the callback runs
+    let callback: Option<fn(&'static str)> = match YIELD_CALLBACK.read() {
+        Ok(guard) => *guard,
+        Err(poisoned) => *poisoned.into_inner(),
+    };
+    if let Some(callback) = callback {
+        callback(label);
+    }
+}
